@@ -21,6 +21,21 @@ static inline jwt_alg_t tok_alg_of(const char *s)
 	return JWT_ALG_INVAL;
 }
 
+/* json_dumps into plain malloc memory (the jansson buffer is released through jansson's own free function,
+ * so block accounting of the harness allocator stays balanced) */
+static inline char *tok_jdump(const json_t *j, size_t flags)
+{
+	json_malloc_t m;
+	json_free_t f;
+	char *d = json_dumps(j, flags);
+	if (!d)
+		return NULL;
+	char *r = strdup(d);
+	json_get_alloc_funcs(&m, &f);
+	f(d);
+	return r;
+}
+
 static inline char *tok_b64(const void *p, size_t n)
 {
 	char *b = malloc(4 * ((n + 2) / 3) + 8);
